@@ -192,3 +192,22 @@ def _e2e_part(run, prefix):
     fn = globals().get("_system_trace")
     if fn:
         fn(run, prefix)
+
+
+def C18(run):
+    run.model_check("MCWire", "MCWire.cfg", workers=8)
+    tr = _t(run, "wire.ndjson")
+    info = run.harness("wire", tr)
+    v = run.validate_sharded("TraceWire", tr, boundary='"k":', shards=8, xss="1g", heap="4g")
+    run.judge(v, tr, "wire", only="C18:")
+    run.sample(tr, pick={0, 1})
+    run.cov["distinct_nontrivial"] = info["distinct_nontrivial"]
+    run.cov["rule"] = ("wire driver: random StoreData contents (0..12 entries, thousands in the thorough tier; empty keys/values, values "
+                       "around the 127/128 and 16383/16384 length boundaries, UTF-8 and binary keys, 0..2 delete prefixes) encoded by "
+                       "VTproto, ProtoingFast and the standard encoder, every decoder reading every encoder's bytes, Binary round trip, "
+                       "size reported by unmarshalVT; and random execout Arrays (0..9 items; 64-bit block numbers, nil / zero / "
+                       "negative / nanos-only timestamps, empty payloads and ids, cursors) encoded by Map.MarshalFast and proto.Marshal "
+                       "and read by UnmarshalFast and proto.Unmarshal. The bytes of every encoder are decoded by the TLA+ decoder of "
+                       "Wire.tla and compared with the content. Non-trivial = more than one entry / item; distinct by content.")
+    run.assumptions += ["Go-side equality flags (decoder output == content) are trusted; the byte-level oracle is the TLA+ decoder",
+                        "64-bit numbers are compared as 7-bit limb lists", "the standard encoder/decoder are skipped for non-UTF-8 keys (they reject them)"]
